@@ -789,6 +789,12 @@ def tasks_for(tier):
         # change): tiny alphabet, deeper
         shard('reuse-d4', narrow_start(), 'R2', 4, 'tiny', REUSE_KINDS,
               ('W2', 'W3'))
+        # state recorded by a merged group must survive an SQL barrier:
+        # every three-step path of additions and attribute changes, also
+        # with a barrier before its last step (index added inside a rebuild
+        # caused by another field, then dropped after the barrier)
+        shard('index-barrier-d3', narrow_start(), 'R2', 3, 'lite',
+              ('AddField', 'ChangeField'), ('W2',), barrier_variants=True)
     else:
         shard('reuse-d5', narrow_start(), 'R2', 5, 'tiny', REUSE_KINDS,
               ('W2', 'W3'))
